@@ -357,6 +357,196 @@ def impl(op, a):
     return out
 
 
+# ------------------------------------------------------------------ explorations outside the model (op 1399)
+# The model's lists hold filestore responses (Finished), generic TLVs (Metadata options) and the fault location is an
+# entity-ID TLV.  The library itself never looks at the class / TLV type of what it is handed (everything with
+# packet_len and pack() is taken), so an application CAN assign a TLV of another class; the statement explored here is
+# the part of C11 that does not depend on what the item is:
+#   an assignment (or construction) that RAISES leaves every view of the PDU, the caller's list and the caller's items
+#   as they were; one that is ACCEPTED leaves packet_len / data-field length = what pack() emits, pack() repeatable,
+#   and the caller's items untouched; the same holds for the next (ordinary) assignment after it.
+from spacepackets.cfdp.tlv import (CfdpTlv, FlowLabelTlv, MessageToUserTlv, FaultHandlerOverrideTlv, FileStoreRequestTlv,
+                                   FileStoreResponseTlv, TlvType, FilestoreActionCode, FilestoreResponseStatusCode)
+from spacepackets.cfdp.defs import FaultHandlerCode
+
+
+class _MyEntityIdTlv(EntityIdTlv):
+    pass
+
+
+X_KINDS = ["fin", "eof", "md"]
+X_ITEM_STYLES = 9
+
+
+def _x_item(l):
+    """a TLV object of one of the library's classes: [style, ...]"""
+    style, r = l[0], list(l[1:])
+    if style == 0: return EntityIdTlv(bytes(r))
+    if style == 1: return CfdpTlv(B._enum(TlvType, g(r, 0)), bytes(r[1:]))
+    if style == 2: return FlowLabelTlv(bytes(r))
+    if style == 3: return MessageToUserTlv(bytes(r))
+    if style == 4: return FaultHandlerOverrideTlv(B._enum(ConditionCode, g(r, 0) % 16 if g(r, 0) % 16 in CCS else 4), FaultHandlerCode(1 + g(r, 1) % 4))
+    if style == 5: return FileStoreRequestTlv(FilestoreActionCode.CREATE_FILE_SNM, bytes(x % 26 + 0x61 for x in r).decode())
+    if style == 6: return FileStoreResponseTlv(FilestoreActionCode.CREATE_FILE_SNM, FilestoreResponseStatusCode.CREATE_SUCCESS,
+                                               bytes(x % 26 + 0x61 for x in r).decode())
+    if style == 7: return _MyEntityIdTlv(bytes(r))
+    return CfdpTlv(TlvType.FILESTORE_RESPONSE, bytes(r))        # a generic TLV that only carries the type code
+
+
+def _x_item_view(t):
+    if t is None:
+        return None
+    try:
+        pk = bytes(t.pack())
+    except Exception as e:  # noqa
+        pk = type(e).__name__
+    return (type(t).__name__, int(t.tlv_type), t.packet_len, pk, id(t))
+
+
+def _x_list_view(l):
+    return None if l is None else (id(l), [_x_item_view(t) for t in l])
+
+
+def _x_view(kind, p):
+    v = [h5._fields(p.pdu_header), p.packet_len, p.pdu_data_field_len, p.header_len, p.pdu_file_directive.directive_param_field_len,
+         _pack(p)]
+    if kind == "fin":
+        q = p.finished_params
+        v += [int(q.condition_code), int(q.delivery_code), int(q.file_status), _x_item_view(p.fault_location),
+              _x_list_view(p.file_store_responses), _x_item_view(q.fault_location), _x_list_view(q.file_store_responses)]
+    elif kind == "eof":
+        v += [int(p.condition_code), bytes(p.file_checksum), p.file_size, _x_item_view(p.fault_location)]
+    else:
+        v += [B._mp_fields(p.params), _x_list_view(p.options), bytes(p._source_file_name_lv.value), bytes(p._dest_file_name_lv.value)]
+    return v
+
+
+def _x_consistent(p):
+    """0 when the reported lengths are those of the packed octets and pack is repeatable, else a code"""
+    p1, p2 = _pack(p), _pack(p)
+    if p1 != p2:
+        return 5
+    if p1[0] == 0:
+        n = len(p1) - 1
+        if p.packet_len != n or p.pdu_header.packet_len != n or p.pdu_header.pdu_data_field_len != n - p.pdu_header.header_len:
+            return 2
+    return 0
+
+
+def explore(a):
+    sub = a[0][0] if a and a[0] else -1
+    if sub != 0:
+        raise RuntimeError("bad exploration")
+    kind, target, nitems = X_KINDS[a[0][1]], a[0][2], a[0][3]
+    nc = 3 + NCTOR[kind]
+    part, item_ls, rest = a[1:1 + nc], a[1 + nc:1 + nc + nitems], a[1 + nc + nitems:]
+    items = [_x_item(l) for l in item_ls]
+    iv0 = [_x_item_view(t) for t in items]
+    if target == 2:
+        # construction with the items inside the caller's FinishedParams
+        conf = _mkconf(part[0], part[1], 0)
+        params = FinishedParams(condition_code=B._enum(ConditionCode, g(part[3], 0)), delivery_code=B._enum(DeliveryCode, g(part[3], 1)),
+                                file_status=B._enum(FileStatus, g(part[3], 2)), fault_location=B._fault(part[4]),
+                                file_store_responses=items)
+        c0 = A._conf_lists(conf)
+        try:
+            p = FinishedPdu(conf, params)
+        except ValueError:
+            p = None
+        if [_x_item_view(t) for t in items] != iv0 or A._conf_lists(conf) != c0 or params.file_store_responses is not items:
+            return [[0, 4]]
+        if p is None:
+            return [[1]]
+        c = _x_consistent(p)
+        return [[1]] if c == 0 else [[0, c]]
+    st = build(kind, part)
+    p = st.p
+    for o in rest[:-1] if rest else []:           # a few ordinary operations first
+        do_op(kind, st, o)
+    s0 = _x_view(kind, p)
+    c = _x_consistent(p)
+    lst = items
+    try:
+        if target == 0:
+            if kind == "fin": p.file_store_responses = lst
+            else: p.options = lst
+        else:
+            p.fault_location = items[0] if items else None
+        raised = False
+    except ValueError:
+        raised = True
+    s1 = _x_view(kind, p)
+    if [_x_item_view(t) for t in items] != iv0 or len(lst) != len(iv0):
+        return [[0, 4]]           # the caller's items / list were modified
+    if raised:
+        if s1 != s0:
+            return [[0, 1]]       # refused, yet something changed
+    elif c == 0 and _x_consistent(p) != 0:
+        return [[0, _x_consistent(p)]]
+    # the next ordinary operation (the last of `rest`), then the same questions once more
+    if rest:
+        s1 = _x_view(kind, p)
+        c1 = _x_consistent(p)
+        r = do_op(kind, st, rest[-1])
+        if r and r[0] == 1 and rest[-1][0] not in (120, 121, 122) and _x_view(kind, p) != s1:
+            return [[0, 6]]
+        if c1 == 0 and rest[-1][0] in RECALC[kind] and (not r or r[0] == 0) and _x_consistent(p) != 0:
+            return [[0, 7]]
+    return [[1]]
+
+
+X_WHAT = {1: "the assignment was refused, yet the PDU's views / lengths / packed octets changed",
+          2: "after the accepted assignment packet_len / the data-field length are not those of the packed octets",
+          4: "the caller's TLV objects (or its list / PduConfig) were modified", 5: "two packs in a row differ",
+          6: "the following operation was refused, yet the PDU changed", 7: "after the following (accepted) assignment the reported "
+          "lengths are not those of the packed octets"}
+
+
+def explore_oracle(case, ires):
+    op, a = case
+    if ires == [[0], [1]]:
+        return None
+    kind, target = X_KINDS[a[0][1]], a[0][2]
+    what = ["%s = [items]" % ("file_store_responses" if kind == "fin" else "options"), "fault_location = item",
+            "FinishedPdu(conf, FinishedParams(file_store_responses=[items]))"][target]
+    nc = 3 + NCTOR[kind]
+    d = ires[1] if len(ires) > 1 else ires[0]
+    return ("C11/%s.%s/foreign-tlv" % (NAME[kind], ["list-setter", "fault_location", "__init__"][target]),
+            "%s with TLV objects %s (styles: 0 EntityIdTlv, 1/8 CfdpTlv, 2 FlowLabelTlv, 3 MessageToUserTlv, 4 FaultHandlerOverrideTlv, "
+            "5 FileStoreRequestTlv, 6 FileStoreResponseTlv, 7 subclass of EntityIdTlv): %s" % (
+                what, [x[:6] for x in a[1 + nc:1 + nc + a[0][3]]], X_WHAT.get(d[1] if len(d) > 1 else -1, "the adapter ended with %s" % (ires[:2],))))
+
+
+def explore_cases(tier, rng):
+    big = tier == "thorough"
+    cases = []
+
+    def item(style):
+        if style == 1:
+            return [1, rng.choice(h8.TLV_TYPES)] + h8.rbytes(rng, rng.choice([0, 1, 2, 8]))
+        if style == 4:
+            return [4, rng.randrange(16), rng.randrange(4)]
+        return [style] + h8.rbytes(rng, rng.choice([1, 1, 2, 4, 8]))
+
+    for kind_i, kind in enumerate(X_KINDS):
+        targets = {"fin": (0, 1, 2), "eof": (1,), "md": (0,)}[kind]
+        for target, style, rep in itertools.product(targets, range(X_ITEM_STYLES), range(6 if big else 2)):
+            c = gen_ctor(kind, rng, path=rng.choice([0, 0, 1, 2] if target != 2 else [0]))
+            if kind in ("fin", "eof") and rng.random() < 0.7:      # a condition code with which the fault location is transmitted
+                (c[3] if kind == "fin" else c[4])[0 if kind == "fin" else 1] = rng.choice([4, 6, 8])
+            if target == 1:
+                items = [item(style)]
+            else:
+                n = rng.choice([1, 1, 2, 3])
+                k = rng.randrange(n)
+                items = [item(style) if i == k else item(rng.choice([6, 6, style]) if kind == "fin" else rng.choice([1, style])) for i in range(n)]
+            pre = gen_ops(kind, rng, c[1][1], rng.randrange(0, 3))
+            pre = [o for o in pre if o and o[0] not in (102,)]
+            nxt = rng.choice([[120], gen_specific(kind, rng, c[1][1]), gen_specific(kind, rng, c[1][1]), [100, rng.randrange(2), rng.randrange(4)]])
+            cases.append((1399, [[0, kind_i, target, len(items)]] + c + items + (pre + [nxt] if target != 2 else [])))
+    return cases
+
+
 # ------------------------------------------------------------------ value-level reading of a history (oracle side)
 FORCED_DIR = {"eof": 0, "prompt": 0, "ka": 1, "fin": 1, "md": 0, "nak": 1}
 RECALC = {"eof": {0, 1}, "ack": set(), "prompt": set(), "ka": set(), "nak": {0, 10, 11},
@@ -873,14 +1063,14 @@ def rsize(rng, large):
 
 def name_end4(rng, n):
     """valid UTF-8 of exactly n octets (n >= 4) ending in a 4-octet sequence"""
-    return h8.rname(rng, n - 4) + rng.choice([c for c in h8.CH if len(c) == 4])
+    return B.rname(rng, n - 4) + rng.choice([c for c in h8.CH if len(c) == 4])
 
 
 def rname(rng):
     n = rng.choice([0, 1, 2, 5, 12, 24, 63, 64, 127, 128, 254, 255, 256, 300])
     if n >= 4 and rng.random() < 0.4:
         return name_end4(rng, n)
-    return h8.rname(rng, n)
+    return B.rname(rng, n)
 
 
 def gen_specific(kind, rng, large):
